@@ -264,6 +264,50 @@ func VerifC17Sequence() {
 	vf.Reach("done")
 }
 
+// VerifC17Drain: what an ExportAndReset keeps stays fully usable. From a state of up to N
+// entries with any completion bits (optionally after an earlier drain), ExportAndReset returns
+// the completed ones; every kept entry is then still addressed by its id - a second request
+// under that id is a duplicate, its response attaches to it - and a second ExportAndReset
+// returns them all and leaves the log empty.
+func VerifC17Drain() {
+	n := 1 + vf.Choice("entries", vf.Param("entries"))
+	ids := []string{"a", "b", "c", "d", "e"}[:n]
+	done := make([]bool, n)
+	for i := range done {
+		done[i] = vf.Choice("completed", 2) == 1
+	}
+	l, model := zzbuildState(ids, done, vf.Choice("drained-before", 2) == 1)
+	h := l.ExportAndReset()
+	var completed, pending []zzmEntry
+	for _, m := range model {
+		if m.done {
+			completed = append(completed, m)
+		} else {
+			pending = append(pending, m)
+		}
+	}
+	zzsameEntries(h.Log.Entries, completed, "drain-export")
+	model = pending
+	zzcheckState(l, model, "drain-kept")
+	backwards := vf.Choice("complete-newest-first", 2) == 1
+	for k := range model {
+		i := k
+		if backwards {
+			i = len(model) - 1 - k
+		}
+		if vf.Choice("probe-duplicate", 2) == 1 {
+			vf.Assert(l.RecordRequest(model[i].id, zzmkReq()) != nil, "drain:kept-id-still-taken")
+		}
+		l.RecordResponse(model[i].id, zzmkRes(400+i))
+		model[i].done, model[i].status = true, 400+i
+		zzcheckState(l, model, "drain-kept-entry-completes")
+	}
+	h = l.ExportAndReset()
+	zzsameEntries(h.Log.Entries, model, "drain-second-export")
+	zzcheckState(l, nil, "drain-empty")
+	vf.Reach("done")
+}
+
 // ---- concurrent executions against the sequential model ----
 
 type zzcop struct {
